@@ -535,6 +535,9 @@ func (x *Exec) lockComp(st *State, p *Ptr) *HeapSym {
 
 func (x *Exec) contractCall(fn *ssa.Function, key string, ctr *Contract, args []*Val, bindings []*Val, st *State, sig *types.Signature, pos token.Pos) *Val {
 	x.usedContract[key] = true
+	if b := ctr.brokenClause(); b != nil {
+		panic(unsupported("contract of callee %s has a clause that no longer type-checks (%s: %s)", shortKey(x.P, key), clauseName(b), b.Broken))
+	}
 	if ctr.Variadic && len(args) != len(ctr.Params) {
 		panic(unsupported("variadic arity mismatch for %s", key))
 	}
